@@ -28,7 +28,10 @@ def run(filter_sub=None):
                     # the expected obligation is named by what follows its property tags (tags get extended over time: "C07.x.y" also matches "C07+C09.x.y")
                     import re as _re
                     rest = e["expect_obligation"].split(".", 1)[1] if "." in e["expect_obligation"] else e["expect_obligation"]
-                    good = p.returncode == 1 and _re.search(r"obligation=[A-Z0-9+]*\." + _re.escape(rest), out) is not None
+                    if "." in e["expect_obligation"]:
+                        good = p.returncode == 1 and _re.search(r"obligation=[A-Z0-9+]*\." + _re.escape(rest), out) is not None
+                    else:   # only a property id given: any obligation tagged for it
+                        good = p.returncode == 1 and _re.search(r"obligation=[A-Z0-9+]*" + _re.escape(rest) + r"[A-Z0-9+]*\.", out) is not None
                 else:
                     good = p.returncode == 0
                 print("SELFTEST %s %-45s %s -> exit %d %s" % (kind, e["patch"], e["property"], p.returncode, "ok" if good else "UNEXPECTED"))
